@@ -25,7 +25,8 @@ RULE = (
     "output dim 1-3 incl. dim_out = dim_in and both scalar conventions float/1-D gradient and size-1 "
     "array/2-D Jacobian, MDOLinearFunction, MDOQuadraticFunction, positive polynomials as denominators; "
     "nodes: + - * / with a function of the same dim, a scalar function, a number or an array, unary minus, "
-    "offset) and 3 points on a grid of quarters; helpers (FunctionRestriction, LinearCompositeFunction, "
+    "offset; a scalar-valued first operand may be combined with a vector-valued second function) and 3 points "
+    "on a grid of quarters given as float64, int64 or float32 arrays; helpers (FunctionRestriction, LinearCompositeFunction, "
     "Concatenate, first/second-order Taylor polynomials, ConvexLinearApprox) are applied on top of such "
     "trees; chains of MDOLinearFunction.__neg__/offset/restrict/normalize on dense and sparse coefficients; "
     "aggregation functions (max, KS lower/upper, IKS, (positive) sum of squares with indices, scalar and "
@@ -39,7 +40,13 @@ ASSUMPTIONS = [
     "denominators are positive polynomial leaves >= 1, non-zero numbers or arrays without zero entries",
     "a function of output dimension 1 may return a float with a 1-D gradient or a size-1 array with a (1,n) "
     "Jacobian; both shapes are accepted from a composed function of dimension 1",
-    "second operands of binary operators have the dimension of the first operand or dimension 1",
+    "operands of binary operators have the same dimension or one of them (first or second) is scalar-valued and "
+    "broadcasts; the operators declare the dimension of their first operand, so the declared dim is not asserted "
+    "for a scalar-valued first operand combined with a vector-valued second one (helpers and aggregations are "
+    "applied to trees without that combination: several of them read the declared dim)",
+    "evaluation points are float64, int64 (what DesignSpace.get_current_value() returns for an all-integer space) "
+    "or float32 arrays holding the same numbers; the harness leaves compute in double precision; expansion points "
+    "and frozen values are float64",
     "numeric comparisons use 1e-11 x the largest magnitude met by the reference in the tree (values "
     "are small dyadic rationals: the arithmetic is exact or nearly so)",
     "symbolic comparison: cross-multiplied numerators compared coefficient-wise within 1e-9 x the largest "
